@@ -410,6 +410,9 @@ def run(rep, proj, tier):
     rep.trusted_base = ["CPython ast", "yadsa partial evaluator", "spec/ew.py: PDG review formulas transcribed independently of the code",
                         "docs/source/theory/fns.rst for the CKM partition by heavyness"]
     rep.assumptions = ["tree-level relation G_F MZ^2/(2 sqrt2 pi alpha) = 1/(4 s^2 c^2) as used by yadism's eta_gammaZ"]
+    from . import state
+
+    state.check(rep, proj, "C02.state", module_filter=lambda m: m.name in ('yadism.coefficient_functions.coupling_constants', 'yadism.coefficient_functions.kernels', 'yadism.coefficient_functions.light.kernels', 'yadism.coefficient_functions.heavy.kernels', 'yadism.coefficient_functions.intrinsic.kernels', 'yadism.coefficient_functions.asy.kernels'))
     check_tables(rep, proj)
     check_weights(rep, proj)
     check_ww(rep, proj)
